@@ -14,7 +14,7 @@ RULE = ("worlds of every party / EVSE / battery class with 1-3 injected schedule
 PROBES = ["resume:rerun", "resume:json_str", "resume:json_buf", "resume:json_file", "crash_last_period",
           "crash_timer_pending", "double_crash_same_period", "crash_before_first_event", "crash_after_inner",
           "pending_plugin_at_crash", "pending_recompute_at_crash", "schedule_history_on", "noisy_battery",
-          "rampdown_estimator_json_resume", "uninterrupted_crash_after_inner", "mutate_then_crash"]
+          "rampdown_estimator_json_resume", "uninterrupted_crash_after_inner", "mutate_then_crash", "two_sessions_share_an_id"]
 FAULT_DIMENSION = "scheduler crash at arbitrary calls (optionally after scribbling over everything it was handed) x 4 resume modes (only JSON survives in 3 of them); noise tape continues across restarts"
 ASSUMPTIONS = ["signals is None or JSON-able (a tariff object is documented as not serialised)",
                "start is a naive datetime (tzinfo is not part of the serial form)",
@@ -32,6 +32,15 @@ def gen(rs, tier):
     if tier == "thorough" and rs % 12 == 0:
         P = dict(P, stations=(4, 10), horizon=(20, 80), sessions_cap=24)
     sc = world.gen_world(rs, P)
+    r = world.sub(rs, "dupid")
+    if r.random() < 0.1 and len(sc["sessions"]) >= 2:
+        # the same vehicle charges twice (ids taken from a vehicle tag): two sessions share a session id, on different stations
+        # or one after the other on the same station
+        a_, b_ = r.sample(sc["sessions"], 2)
+        b_["session_id"] = a_["session_id"]
+        sc["dup_session_id"] = a_["session_id"]
+        if sc["party"].get("estimator") in ("stub", "rampdown"):
+            sc["party"]["estimator"] = "none"
     if sc["party"].get("estimator") == "rampdown":
         # SimpleRampdown keeps per-session state in the scheduler (not serialised, by design): only crashes BEFORE the
         # algorithm ran leave that state equal to the uninterrupted run's
@@ -52,7 +61,7 @@ def after_load(ctx, old, new, info):
         ev = new.network.get_ev(s)
         if ev is None:
             continue
-        if new.ev_history.get(ev.session_id) is not ev:
+        if new.ev_history.get(ev.session_id) is not ev and not ctx.sc.get("dup_session_id"):
             probs.append("EV %s at station %s is not the object in ev_history" % (ev.session_id, s))
         n = sum(1 for x in unplug_evs if x is ev)
         if n != 1:
@@ -63,9 +72,9 @@ def after_load(ctx, old, new, info):
     for e in new.event_history:
         ev = getattr(e, "ev", None)
         if ev is not None:
-            if hist_ev.setdefault(ev.session_id, ev) is not ev:
+            if hist_ev.setdefault(ev.session_id, ev) is not ev and not ctx.sc.get("dup_session_id"):
                 probs.append("event_history holds two EV objects for session %s" % ev.session_id)
-            if ev.session_id in new.ev_history and new.ev_history[ev.session_id] is not ev:
+            if ev.session_id in new.ev_history and new.ev_history[ev.session_id] is not ev and not ctx.sc.get("dup_session_id"):
                 probs.append("event_history EV %s is not the ev_history object" % ev.session_id)
     # queue still pops in (timestamp, precedence) order: compare pop order of a copy with the old queue's
     import heapq
@@ -109,6 +118,7 @@ def check(sc):
     out.probe("schedule_history_on", 1 if sc["sim"]["store_schedule_history"] and tr.resumes else 0)
     out.probe("noisy_battery", 1 if tr.noise_draws and tr.resumes else 0)
     out.probe("mutate_then_crash", tr.fault_counts.get("mutate_crash", 0))
+    out.probe("two_sessions_share_an_id", 1 if sc.get("dup_session_id") and tr.resumes else 0)
     out.probe("rampdown_estimator_json_resume", sum(1 for r in tr.resumes if r["mode"] != "rerun") if sc["party"].get("estimator") == "rampdown" else 0)
     out.probe("uninterrupted_crash_after_inner", sum(1 for f in sc["faults"] if f.get("when") == "after") if sc["party"].get("uninterrupted") else 0)
     nontriv = False
@@ -165,6 +175,14 @@ def check(sc):
     hb = sorted((e.timestamp, e.precedence, str(getattr(getattr(e, "ev", None), "session_id", None))) for e in b.event_history)
     if ha != hb:
         out.add("C09/event_history", "resumed %s uninterrupted %s" % (hb[:10], ha[:10]))
+    xa = [(e.timestamp, e.event_type, str(getattr(getattr(e, "ev", None), "session_id", None))) for e in a.event_history]
+    xb = [(e.timestamp, e.event_type, str(getattr(getattr(e, "ev", None), "session_id", None))) for e in b.event_history]
+    if ha == hb and xa != xb:
+        i_ = next(i for i in range(len(xa)) if xa[i] != xb[i])
+        out.add("C09/event_history_sequence", "same events, different order from position %d: resumed %s, uninterrupted %s (the queue's heap "
+                "layout is part of the saved state, so ties must pop alike)" % (i_, xb[i_:i_ + 4], xa[i_:i_ + 4]))
+    if list(a.ev_history.keys()) != list(b.ev_history.keys()):
+        out.add("C09/ev_history_order", "session history order: resumed %s, uninterrupted %s" % (list(b.ev_history)[:8], list(a.ev_history)[:8]))
     kb = [(e.timestamp, e.precedence) for e in b.event_history]
     if kb != sorted(kb):
         out.add("C09/event_history_order", str(kb[:20]))
@@ -176,7 +194,7 @@ def check(sc):
         if na != nb:
             out.add("C09/schedule_history", "keys resumed %s uninterrupted %s" % (sorted(nb)[:12], sorted(na)[:12]))
     # shared-object clause at the end as well
-    for sid, ev_ in b.ev_history.items():
+    for sid, ev_ in ({} if sc.get("dup_session_id") else b.ev_history).items():
         for e in b.event_history:
             x = getattr(e, "ev", None)
             if x is not None and x.session_id == sid and x is not ev_:
